@@ -158,3 +158,61 @@ Qed.
 Theorem load_vs_gen tyorder root args out sc se :
   load_analyze tyorder root args out sc se = analyze tyorder root args out sc se.
 Proof. reflexivity. Qed.
+
+(* ---------------- struct providers (C12) ---------------- *)
+Lemma check_field_sound lit fields f :
+  check_field lit fields = CfOk f ->
+  In f fields /\ quote (sf_name f) = lit /\ is_prevented (sf_tag f) = false.
+Proof.
+  induction fields as [|x r IH]; cbn [check_field]; [discriminate|].
+  destruct (String.eqb (quote (sf_name x)) lit) eqn:E.
+  - destruct (is_prevented (sf_tag x)) eqn:P; [discriminate|]. intros H; inversion H; subst. cbn.
+    apply String.eqb_eq in E. auto.
+  - intros H. destruct (IH H) as (A & B & C). cbn; auto.
+Qed.
+
+Lemma star_fields_spec fields f :
+  In f (star_fields fields) <-> In f fields /\ is_prevented (sf_tag f) = false.
+Proof.
+  unfold star_fields. rewrite filter_In. split; intros [A B]; split; auto.
+  - destruct (is_prevented (sf_tag f)); auto; discriminate.
+  - rewrite B. reflexivity.
+Qed.
+
+Lemma select_fields_sound : forall lits fields id fs,
+  select_fields lits fields id = inl fs ->
+  List.length fs = List.length lits /\ Forall (fun f => In f fields /\ is_prevented (sf_tag f) = false) fs.
+Proof.
+  induction lits as [|l r IH]; intros fields id fs H; cbn [select_fields] in H.
+  - inversion H; subst. split; auto.
+  - destruct (check_field l fields) as [f| |] eqn:E; try discriminate.
+    destruct (select_fields r fields id) as [fs'|e] eqn:E2; [|discriminate]. inversion H; subst.
+    destruct (IH _ _ _ E2) as [L F]. apply check_field_sound in E. destruct E as (A & _ & C).
+    split; [cbn; congruence|]. constructor; auto.
+Qed.
+
+(* an accepted wire.Struct provides exactly S and *S, depends on exactly the selected fields (each a declared,
+   un-prevented field of S, pairwise distinct types), and mentions no other field *)
+Theorem struct_provider_spec s p :
+  struct_provider s = inl p ->
+  pv_outs p = [sp_t s; sp_tptr s] /\ pv_struct p = true /\ pv_cleanup p = false /\ pv_err p = false /\
+  NoDup (pv_args p) /\
+  exists fs, pv_args p = map sf_type fs /\ pv_fields p = map sf_name fs /\
+             Forall (fun f => In f (sp_fields s) /\ is_prevented (sf_tag f) = false) fs /\
+             (all_fields (sp_lits s) = true -> fs = star_fields (sp_fields s)).
+Proof.
+  unfold struct_provider.
+  destruct (all_fields (sp_lits s)) eqn:A.
+  - destruct (first_dup (map sf_type (star_fields (sp_fields s))) []) eqn:D; [discriminate|].
+    intros H; inversion H; subst; cbn. repeat split; auto.
+    + apply dup_check_iff; auto.
+    + exists (star_fields (sp_fields s)). repeat split; auto.
+      apply Forall_forall. intros f Hf. apply star_fields_spec; auto.
+  - destruct (select_fields (sp_lits s) (sp_fields s) (sp_id s)) as [fs|e] eqn:S; [|discriminate].
+    destruct (first_dup (map sf_type fs) []) eqn:D; [discriminate|].
+    intros H; inversion H; subst; cbn. repeat split; auto.
+    + apply dup_check_iff; auto.
+    + exists fs. repeat split; auto.
+      * apply select_fields_sound in S. tauto.
+      * discriminate.
+Qed.
